@@ -105,6 +105,7 @@ int main(int argc, char **argv)
     lim.avx512 = has_flag(argc, argv, "--avx512");
     lim.coarse = sim::g_asan_flavour;
     lim.cold = has_flag(argc, argv, "--cold");
+    lim.huge = has_flag(argc, argv, "--huge");
     std::string profile = arg_of(argc, argv, "--profile", "C12");
     uint64_t base = strtoull(arg_of(argc, argv, "--seed", "1").c_str(), nullptr, 10);
 
